@@ -58,6 +58,8 @@ def gen_beh(rng: random.Random, outs: List[str], durs: Optional[List[List[Any]]]
 def gen_cfg(rng: random.Random, allow_none_A: bool = True, n_ok: bool = True) -> Dict[str, Any]:
     A = rng.choice(([None, None, None, 0, -1] if allow_none_A else []) + [1, 1, 2, 2, 3, 4] * 3)  # None / 0 / -1: no limit
     cfg: Dict[str, Any] = {"A": A, "P": rng.choice([0, 0, 1, 2, 3, 4])}
+    if rng.random() < 0.15:
+        cfg["ctor_positional"] = True  # Receiver(broker, executor, validate_params, A, P, ...): the documented order
     if n_ok and rng.random() < 0.3:
         cfg["N"] = rng.randint(1, 6)
     elif n_ok and rng.random() < 0.1:
@@ -870,7 +872,8 @@ def gen_c04_spec(rng: random.Random, A: int, P: int) -> Dict[str, Any]:
         for m in msgs:
             m["at"] = round(m["at"] + 0.5, 6)
         msgs = junk + msgs
-    spec: Dict[str, Any] = {"cfg": {"A": A, "P": P, "ack": rng.choice(["when_saved", "when_saved", "when_executed", "when_received"]), "threads": 32},
+    spec: Dict[str, Any] = {"cfg": {"A": A, "P": P, "ack": rng.choice(["when_saved", "when_saved", "when_executed", "when_received"]), "threads": 32,
+                                    "ctor_positional": rng.random() < 0.2},
                             "msgs": msgs, "backend": {"lat": rng.choice([0, 0.05, 0.2, 0.2, 2.6])}}
     if not sync_tasks and rng.random() < 0.15:
         # task functions with yield-style dependencies whose teardown takes time: the message is being processed
@@ -1031,6 +1034,10 @@ def gen_c05_spec(rng: random.Random, maxn: int = 16) -> Dict[str, Any]:
                 m_["beh"] = {"dur": [], "sync_hold": rng.choice([1.0, 2.0, 5.0]), "out": "ok", "value": 1}
     cfg["threads"] = len(msgs) + 2
     spec: Dict[str, Any] = {"cfg": cfg, "msgs": msgs, "backend": {"lat": rng.choice([0, 0, 0.05, 0.4])}}
+    if rng.random() < 0.1:
+        # another worker object listens in the same process and is busy with a task of its own that never ends: this
+        # worker's shutdown is about this worker's messages
+        spec["twin_receiver"] = "busy"
     if rng.random() < 0.15:
         # hostile extra: processing of some messages fails outside the task function (raising hook)
         toks = [f"m{i}" for i in range(n) if rng.random() < 0.3]
